@@ -16,7 +16,7 @@ enum { PUSH_S, POP_S, PUSH_W, POP_W };
 //  * weak operations may fail spuriously (a failed weak op is always legal), but may never succeed wrongly
 //  * if `inflight_slack`: a failed push is legal when size + (#operations of other threads overlapping it) >= capacity
 struct BoundedFifoSpec {
-  uint8_t q[12];
+  uint8_t q[40]; // (12 were too few for the capacity-16 runs of the thorough tier: a false LIN alarm of the harness itself)
   int n = 0;
   int cap = 0;
   bool inflight_slack = false;
@@ -26,6 +26,7 @@ struct BoundedFifoSpec {
     if (push) {
       if (e.r0) { // success
         if (n >= cap) return false;
+        if (n >= 40) xmc::fail("ENGINE", "bounded.cpp: reference queue too small");
         q[n++] = uint8_t(e.a0);
         return true;
       }
@@ -44,7 +45,7 @@ struct BoundedFifoSpec {
   }
   uint64_t hash() const {
     uint64_t h = n;
-    for (int i = 0; i < n; i++) h = (h << 5) | q[i];
+    for (int i = 0; i < n; i++) h = h * 1099511628211ull + q[i] + 1;
     return h;
   }
 };
